@@ -1,6 +1,7 @@
 package main
 
 import (
+	"bytes"
 	"encoding/json"
 	"errors"
 	"fmt"
@@ -390,6 +391,61 @@ func c01Drive(args []string) int {
 			if vi == 3 {
 				sum.sample(M{"sample": s.Name, "variant": vi, "events": evs[:min(len(evs), 12)]})
 			}
+		}
+	}
+	// two Transforms of one Schema alive at once, their calls alternating: RawRecord of one describes the record of *its*
+	// most recent Read, whatever the other one has read since
+	for _, smp := range miniSamples() {
+		sch, err, p := newSchema(smp.Schema)
+		if err != nil || p != "" {
+			continue
+		}
+		solo := func(in []byte) []string {
+			var sums []string
+			runTranscript(sch, bytes.NewReader(in), RunOpts{MaxReads: 200, AfterRead: func(tr omniTransform, res Res) {
+				if res.Class == "ok" {
+					sums = append(sums, res.Sum)
+				}
+			}})
+			return sums
+		}
+		inA := smp.Input
+		inB := append(append([]byte{}, smp.Input...), smp.Input...)
+		if smp.Format == "json" || smp.Format == "xml" {
+			inB = smp.Input // (one top-level value per input)
+		}
+		wantA := solo(inA)
+		ta, ea := sch.NewTransform("a", bytes.NewReader(inA), &transformctx.Ctx{})
+		tb, eb := sch.NewTransform("b", bytes.NewReader(inB), &transformctx.Ctx{})
+		if ea != nil || eb != nil || len(wantA) == 0 {
+			continue
+		}
+		k := 0
+		for step := 0; step < 200; step++ {
+			var ra error
+			pv, _ := guarded(0, func() { _, ra = ta.Read() })
+			if pv != "" || classify(ra) == "eof" || classify(ra) == "fatal" {
+				break
+			}
+			pv, _ = guarded(0, func() { tb.Read(); tb.Read() })
+			if pv != "" {
+				break
+			}
+			if ra != nil {
+				continue
+			}
+			rr, e := ta.RawRecord()
+			got := "error"
+			if e == nil {
+				got = rr.Checksum()
+			}
+			sum.eval(true, M{"twin": smp.Name, "k": k})
+			if k < len(wantA) && got != wantA[k] {
+				violation("C01", "rawrecord-of-another-transform", fmt.Sprintf("%s: two Transforms of one Schema: after a.Read (record %d) and two b.Read calls, a.RawRecord() has checksum %s, that record's checksum is %s",
+					smp.Name, k+1, got, wantA[k]), M{"sample": smp.Name, "record": k + 1})
+				break
+			}
+			k++
 		}
 	}
 	// a long run of records that the target filter rejects, then one that passes: the Read that spans the run returns a
